@@ -41,6 +41,32 @@ def has_date_part_argument(s):
     return False
 
 
+def name_leak_shape(stmt):
+    """finding D9: a derived table whose query JOINs a relation whose exposed name (alias, or bare name when un-aliased) is also an
+    exposed name of the ENCLOSING FROM clause.  `list_join_clause` crawls into derived tables, so the inner relation is a candidate in
+    the outer scope too and may win the qualifier."""
+    def exposed(frm, joins_only=False):
+        out = set()
+        for fe in frm:
+            els = ([] if joins_only else [fe[0]]) + [j[1] for j in fe[1]]
+            for el in els:
+                if isinstance(el, list) and el and el[0] in ("table", "derived"):
+                    n = el[2] if el[2] else (el[1][-1] if el[0] == "table" else None)
+                    if n:
+                        out.add(str(n).lower())
+        return out
+    for n in gensql._walk(stmt):
+        if isinstance(n, list) and len(n) == 7 and n[0] == "select":
+            outer = exposed(n[3])
+            for fe in n[3]:
+                for el in [fe[0]] + [j[1] for j in fe[1]]:
+                    if isinstance(el, list) and el and el[0] == "derived":
+                        for m in gensql._walk(el[1]):
+                            if isinstance(m, list) and len(m) == 7 and m[0] == "select" and exposed(m[3], joins_only=True) & outer:
+                                return True
+    return False
+
+
 def finding_key(s):
     return "create_view+cols" if s[0] == "create_view" and s[3] else s[0]
 
@@ -250,6 +276,11 @@ def run(chk):
         if lspec is not None and isinstance(ip, list):
             st.c["spec-covered"] += 1
             if sorted(map(tuple, lspec)) != sorted(map(tuple, pairs_of(ip))):
+                if "D9" in listed and ip == m1 and name_leak_shape(s):
+                    # the recorded finding D9: identified by its shape AND implementation = model
+                    chk.known("D9")
+                    st.c["known:D9"] += 1
+                    continue
                 st.c["impl!=spec"] += 1
                 if spec_fail is None:
                     spec_fail = (s, d)
